@@ -24,10 +24,18 @@ VARIABLES visible,      \* names visible in the current method scope
           imp,          \* path -> qualifier        (Registry.imports)
           inpkg,        \* Registry.inPackage
           last,         \* last operation with its reply (observation)
-          hist          \* all operations so far (observation; hidden by VIEW)
+          hist,         \* all operations so far (observation; hidden by VIEW)
+          pv,           \* MethodScope.vars: the provisional names of the variables added so far (AddVar)
+          resolved      \* ResolveVariableNameCollisions ran on the current scope
 
-vars == <<visible, imp, inpkg, last, hist>>
-view == <<visible, imp, inpkg, last>>
+vars == <<visible, imp, inpkg, last, hist, pv, resolved>>
+view == <<visible, imp, inpkg, last, pv, resolved>>
+
+\* variable alphabet of the AddVar / ResolveVariableNameCollisions histories (empty unless a cfg overrides them:
+\* VarNames <- MCVarNamesV).  A VarPkgs element is a Pkgs record or NoPkg (a variable of a basic type).
+VarNames == {}
+VarPkgs == {}
+NoPkg == [name |-> "", path |-> ""]
 
 Name(p, i) == IF i = 0 THEN p ELSE p \o ToString(i)
 Alias(q, i) == IF i = 0 THEN q ELSE q \o ToString(i - 1)
@@ -56,50 +64,89 @@ Init == /\ visible = {}
         /\ inpkg \in BOOLEAN
         /\ last = [op |-> "init"]
         /\ hist = << >>
+        /\ pv = << >>
+        /\ resolved = FALSE
 
 Do(rec) == /\ last' = rec
            /\ hist' = Append(hist, rec)
 
 AddName(n) == /\ visible' = visible \cup {n}
               /\ Do([op |-> "add", name |-> n])
-              /\ UNCHANGED <<imp, inpkg>>
+              /\ UNCHANGED <<imp, inpkg, pv, resolved>>
 
 NameExists(n) == /\ Do([op |-> "exists", name |-> n, res |-> (n \in visible)])
-                 /\ UNCHANGED <<visible, imp, inpkg>>
+                 /\ UNCHANGED <<visible, imp, inpkg, pv, resolved>>
 
 SuggestName(p) == /\ Do([op |-> "suggest", prefix |-> p, res |-> SuggestImpl(p, visible)])
-                  /\ UNCHANGED <<visible, imp, inpkg>>
+                  /\ UNCHANGED <<visible, imp, inpkg, pv, resolved>>
 
 AllocateName(p) == LET r == SuggestImpl(p, visible) IN
                    /\ visible' = visible \cup {r}
                    /\ Do([op |-> "alloc", prefix |-> p, res |-> r])
-                   /\ UNCHANGED <<imp, inpkg>>
+                   /\ UNCHANGED <<imp, inpkg, pv, resolved>>
 
 Extend(f, k, v) == [x \in DOMAIN f \cup {k} |-> IF x = k THEN v ELSE f[x]]
 
 AddImport(pk) ==
   IF pk.path = DstPath /\ inpkg
-  THEN /\ Do([op |-> "import", name |-> pk.name, path |-> pk.path, res |-> "", nil |-> TRUE])
-       /\ UNCHANGED <<visible, imp, inpkg>>
+  THEN /\ Do([op |-> "import", name |-> pk.name, path |-> pk.path, rpath |-> pk.path, res |-> "", nil |-> TRUE])
+       /\ UNCHANGED <<visible, imp, inpkg, pv, resolved>>
   ELSE IF pk.path \in DOMAIN imp
-  THEN /\ Do([op |-> "import", name |-> pk.name, path |-> pk.path, res |-> imp[pk.path], nil |-> FALSE])
-       /\ UNCHANGED <<visible, imp, inpkg>>
+  THEN /\ Do([op |-> "import", name |-> pk.name, path |-> pk.path, rpath |-> pk.path, res |-> imp[pk.path], nil |-> FALSE])
+       /\ UNCHANGED <<visible, imp, inpkg, pv, resolved>>
   ELSE LET q == AliasImpl(pk.name, Quals) IN
        /\ imp' = Extend(imp, pk.path, q)
-       /\ Do([op |-> "import", name |-> pk.name, path |-> pk.path, res |-> q, nil |-> FALSE])
-       /\ UNCHANGED <<visible, inpkg>>
+       /\ Do([op |-> "import", name |-> pk.name, path |-> pk.path, rpath |-> pk.path, res |-> q, nil |-> FALSE])
+       /\ UNCHANGED <<visible, inpkg, pv, resolved>>
 
 ListImports == /\ Do([op |-> "imports", paths |-> DOMAIN imp])
-               /\ UNCHANGED <<visible, imp, inpkg>>
+               /\ UNCHANGED <<visible, imp, inpkg, pv, resolved>>
 
 PkgQualifier(p) == /\ Do([op |-> "qual", path |-> p, found |-> (p \in DOMAIN imp),
                           res |-> IF p \in DOMAIN imp THEN imp[p] ELSE ""])
-                   /\ UNCHANGED <<visible, imp, inpkg>>
+                   /\ UNCHANGED <<visible, imp, inpkg, pv, resolved>>
 
 \* Registry.MethodScope(): a fresh scope that sees the qualifiers imported so far
 NewScope == /\ visible' = Quals
             /\ Do([op |-> "newscope"])
+            /\ pv' = << >> /\ resolved' = FALSE
             /\ UNCHANGED <<imp, inpkg>>
+
+\* MethodScope.AddVar (method_scope.go:135-212, no replacement): the package of the variable's type is imported
+\* into the FILE registry, its qualifier and the type string become visible in the scope, and only then a
+\* provisional name is suggested (not registered) for the variable.  The in-package self import yields no
+\* import and the empty qualifier.
+ToSet(s) == {s[i] : i \in 1..Len(s)}
+TypeStr(pk, q) == IF pk.path = "" THEN "string" ELSE IF q = "" THEN "T" ELSE q \o ".T"
+AddVar(n, pk) ==
+  LET self == pk.path = DstPath /\ inpkg
+      imp2 == IF pk.path = "" \/ self \/ pk.path \in DOMAIN imp THEN imp
+              ELSE Extend(imp, pk.path, AliasImpl(pk.name, Quals))
+      q    == IF pk.path = "" \/ self THEN "" ELSE imp2[pk.path]
+      t    == TypeStr(pk, q)
+      vis2 == visible \cup {t} \cup (IF pk.path = "" THEN {} ELSE {q})
+      r    == SuggestImpl(n, vis2)
+  IN /\ ~resolved
+     /\ imp' = imp2
+     /\ visible' = vis2
+     /\ pv' = Append(pv, r)
+     /\ Do([op |-> "addvar", name |-> n, pname |-> pk.name, path |-> pk.path, rpath |-> pk.path, nil |-> self,
+            q |-> q, tstr |-> t, tident |-> (q = ""), res |-> r])
+     /\ UNCHANGED <<inpkg, resolved>>
+
+\* ResolveVariableNameCollisions (method_scope.go:60-78): in order, every variable gets the first free
+\* suffixed form of its provisional name, which is then registered.  (The exported-name uniqueness loop is
+\* not modelled: VarNames alphabets contain no two names that coincide once exported; the probe-template
+\* route covers a/A, id/ID.)
+RECURSIVE ResolveFrom(_, _, _)
+ResolveFrom(i, vis, acc) == IF i > Len(pv) THEN acc
+                            ELSE LET r == SuggestImpl(pv[i], vis) IN ResolveFrom(i + 1, vis \cup {r}, Append(acc, r))
+Resolve == LET names == ResolveFrom(1, visible, << >>) IN
+           /\ ~resolved /\ Len(pv) > 0
+           /\ visible' = visible \cup ToSet(names)
+           /\ resolved' = TRUE
+           /\ Do([op |-> "resolve", names |-> names])
+           /\ UNCHANGED <<imp, inpkg, pv>>
 
 Next == /\ Len(hist) < MaxHist
         /\ \/ \E n \in AddNames : AddName(n) \/ NameExists(n)
@@ -108,6 +155,8 @@ Next == /\ Len(hist) < MaxHist
            \/ ListImports
            \/ \E p \in Paths : PkgQualifier(p)
            \/ NewScope
+           \/ \E n \in VarNames : \E pk \in VarPkgs : AddVar(n, pk)
+           \/ Resolve
 
 Spec == Init /\ [][Next]_vars
 
@@ -138,9 +187,26 @@ QualifierNonEmpty == \A p \in DOMAIN imp : imp[p] # ""
 ImportsListsEachPathOnce == last.op = "imports" => last.paths = DOMAIN imp
 QualReplyMatches == last.op = "qual" => (last.found <=> last.path \in DOMAIN imp) /\ (last.found => last.res = imp[last.path])
 NoSelfImportInPackage == inpkg => DstPath \notin DOMAIN imp
+\* the names somebody other than the variable mechanism registered in the current scope: qualifiers the scope saw
+\* when it was created, AddName / AllocateName since, and the qualifiers / type names registered by AddVar
+LastScope(h) == IF \E i \in 1..Len(h) : h[i].op = "newscope"
+                THEN CHOOSE i \in 1..Len(h) : h[i].op = "newscope" /\ \A j \in (i+1)..Len(h) : h[j].op # "newscope"
+                ELSE 0
+OthersOf(h) == LET k == LastScope(h) IN
+     {h[i].res : i \in {j \in 1..k : h[j].op = "import" /\ ~h[j].nil}}
+\cup {h[i].q : i \in {j \in 1..Len(h) : h[j].op = "addvar" /\ h[j].path # "" /\ ~h[j].nil}}
+\cup {h[i].tstr : i \in {j \in (k+1)..Len(h) : h[j].op = "addvar" /\ h[j].tident}}
+\cup {h[i].name : i \in {j \in (k+1)..Len(h) : h[j].op = "add"}}
+\cup {h[i].res : i \in {j \in (k+1)..Len(h) : h[j].op = "alloc"}}
+\* after ResolveVariableNameCollisions the variables' names are pairwise distinct and differ from every name
+\* somebody else registered in the scope (qualifier, type name, reservation, allocation)
+ResolveIsFresh == [][last'.op = "resolve" /\ Len(hist') > Len(hist) =>
+                       /\ \A i, j \in 1..Len(last'.names) : i # j => last'.names[i] # last'.names[j]
+                       /\ ToSet(last'.names) \cap OthersOf(hist) = {}
+                       /\ ToSet(last'.names) \subseteq visible']_vars
 
 TypeOK == /\ visible \subseteq STRING
-          /\ DOMAIN imp \subseteq Paths
+          /\ DOMAIN imp \subseteq Paths \cup {pk.path : pk \in VarPkgs}
 
 -----------------------------------------------------------------------------
 (* Export: every generated transition is printed once with a representative history leading to it,
